@@ -308,7 +308,7 @@ fn body_encoders(
         stream::deviate(ch, p, devs, &mut taken);
     }
     let st = stream::finalise(protos, &env.refs);
-    let cfg = WriteCfg { records_per_slice: layout, preserve_names: preserve, pos_delta: true, target, enc };
+    let cfg = WriteCfg { records_per_slice: layout, slices_per_container: 1, preserve_names: preserve, pos_delta: true, target, enc };
     run_case(ch, env, BASE_STREAMS[which], &st, &cfg, &taken)
 }
 
